@@ -82,6 +82,59 @@ def write_protocol(ctx, prog, rule):
     ctx.ob(rule, "descriptor/%s" % short(f.path), okd, "%s (must be the start position and the copied byte count)" % desc)
 
 
+def _empty_shortcut(ctx, f, R, rule):
+    """blocks of an `if self.length == 0 { return Ok(0) }` shortcut: reachable only through the zero edge of a test of
+    self.length against 0, containing no call, and returning Ok(0). Such a path delivers the (empty) blob exactly."""
+    out = set()
+    g = f.cfg()
+    for bi in g:
+        t = f.blocks[bi]["term"]
+        if t["k"] != "switch":
+            continue
+        dl = op_place(t["discr"])
+        d = strip(R.place(dl)) if dl else None
+        if not (d and d[0] == "binop" and d[1] in ("Eq", "Ne")):
+            continue
+        a, b = strip(d[2]), strip(d[3])
+        if not ((self_field(a) == "length" and const_val(b) == 0) or (self_field(b) == "length" and const_val(a) == 0)):
+            continue
+        e = switch_edges(f, bi)
+        zero = e["otherwise"] if d[1] == "Eq" else e.get("0")      # Eq: true (non-zero discr) edge = length == 0
+        other = e.get("0") if d[1] == "Eq" else e["otherwise"]
+        if zero is None or other is None:
+            continue
+        region = reach(g, [zero]) - reach(g, [other])
+        if zero not in region:
+            continue
+        calls = [x for x in region if f.blocks[x]["term"]["k"] == "call"]
+        rets = [(rb, pay) for rb, si, cls, pay in f.ret_assignments() if rb in region]
+        trivial = not calls and rets and all(cls == "ok" and const_val(strip(R.operand(pay["ops"][0]))) == 0
+                                              for rb, si, cls, pay in f.ret_assignments() if rb in region)
+        ctx.ob(rule, "empty-shortcut/%s" % short(f.path), bool(trivial), "the self.length == 0 shortcut makes no call and returns Ok(0)", where=f.file_line(zero))
+        if trivial:
+            out |= region
+    return out
+
+
+def read_bounded(ctx, prog, rule):
+    """C09-R4: the only thing Blob::read hands to the caller's writer is an io::copy from reader.take(self.length): the
+    bytes delivered are bounded by the descriptor length and by the end of the file (PagedReader::read returns 0 there)."""
+    f = prog.fn(BR)
+    ctx.fn_seen(f)
+
+    def copy_limited(c, t, R):
+        if not c.endswith("io::copy"):
+            return False
+        src = strip(R.operand(t["args"][0]))
+        return src[0] == "call" and src[1].endswith("Read::take") and strip(R.operand(t["args"][1])) == ("param", 3) \
+            and self_field(src[2][1]) == "length" and strip(src[2][0]) == ("param", 2)
+    copies = calls_where(f, copy_limited)
+    outs = calls_where(f, lambda c, t, R: any(strip(R.operand(a)) == ("param", 3) for a in t["args"]))
+    ctx.ob(rule, "bounded-output/%s" % short(f.path), bool(copies) and outs == copies,
+           "the caller's writer is only passed to io::copy(reader.take(self.length), writer) (%d uses, %d bounded copies)" % (len(outs), len(copies)),
+           where=f.file_line((outs or [0])[0]))
+
+
 def read_protocol(ctx, prog, rule):
     f = prog.fn(BR)
     S = Steps(ctx, f, rule)
@@ -90,14 +143,45 @@ def read_protocol(ctx, prog, rule):
     S.step("header", calls_where(f, lambda c, t, R: c == "blob::BlobSectionHeader::from_reader"))
     S.step("take", calls_where(f, lambda c, t, R: c.endswith("Read::take") and self_field(R.operand(t["args"][1])) == "length" and strip(R.operand(t["args"][0])) == ("param", 2)), what="reader.take(self.length)")
 
+    def is_take(x):
+        x = strip(x)
+        return x[0] == "call" and x[1].endswith("Read::take")
+
+    def buf_id(x):
+        """identity of a local byte buffer: its constructor call (callee, block)"""
+        x = strip(x)
+        while x[0] == "cast":
+            x = strip(x[2])
+        if x[0] == "call" and (x[1].endswith("Vec::<T>::new") or x[1].endswith("::with_capacity")):
+            return (x[1], x[3])
+        return None
+
+    # the transfer is either streaming: io::copy(take, writer), or buffered: take.read_to_end(&mut buf) followed by
+    # writer.write_all(&buf) of the same buffer
+    fills = {}
+    for bi, t in f.calls(lambda c, t: c.endswith("Read::read_to_end")):
+        if is_take(R.operand(t["args"][0])) and buf_id(R.operand(t["args"][1])):
+            fills[buf_id(R.operand(t["args"][1]))] = bi
+
     def copy_limited(c, t, R):
-        if not c.endswith("io::copy"):
-            return False
-        src = strip(R.operand(t["args"][0]))
-        return src[0] == "call" and src[1].endswith("Read::take") and strip(R.operand(t["args"][1])) == ("param", 3)
-    S.step("copy", calls_where(f, copy_limited), what="io::copy(&mut limited, writer)")
-    for n in ("seek", "header", "take", "copy"):
+        if c.endswith("io::copy"):
+            return is_take(R.operand(t["args"][0])) and strip(R.operand(t["args"][1])) == ("param", 3)
+        if c.endswith("Write::write_all"):
+            return strip(R.operand(t["args"][0])) == ("param", 3) and buf_id(R.operand(t["args"][1])) in fills
+        return False
+    S.step("copy", calls_where(f, copy_limited), what="io::copy(&mut limited, writer) or read_to_end(&mut buf) + writer.write_all(&buf)")
+    empty = _empty_shortcut(ctx, f, R, rule)
+    for n in ("seek", "header"):
         S.must_pass(n)
+    for n in ("take", "copy"):
+        S.must_pass(n, exempt=empty)
+    # nothing else repositions or consumes the reader between the seek and the bounded copy
+    uses = calls_where(f, lambda c, t, R: any(strip(R.operand(a)) == ("param", 2) for a in t["args"]))
+    allowed = set(S.steps.get("seek", [])) | set(S.steps.get("header", [])) | set(S.steps.get("take", []))
+    extra = [b for b in uses if b not in allowed]
+    ctx.ob(rule, "reader-uses/%s" % short(f.path), not extra and len(S.steps.get("seek", [])) == 1,
+           "the page reader is passed to seek_physical(self.offset) once, to the header parser and to take(self.length) and to nothing else (other uses: %s)"
+           % [short(callee_of(f.blocks[b]["term"])) for b in extra], where=f.file_line(extra[0]) if extra else None)
     S.before("seek", "header")
     S.before("header", "take")
     S.before("take", "copy")
@@ -115,10 +199,13 @@ def read_protocol(ctx, prog, rule):
         if d and d[0] == "binop" and d[1] in ("Ne", "Eq", "Lt"):
             a, b = strip(d[2]), strip(d[3])
             for x, y in ((a, b), (b, a)):
-                if x[0] == "call" and x[1].endswith("io::copy") and self_field(y) == "length":
+                x = strip_casts(x)
+                counted = x[0] == "call" and (x[1].endswith("io::copy") or (x[1].endswith("Read::read_to_end") and x[3] in fills.values())
+                                              or (x[1].endswith("::len") and buf_id(x[2][0]) in fills))
+                if counted and self_field(y) == "length":
                     e = switch_edges(f, bi)
                     bad = e["otherwise"] if d[1] in ("Ne", "Lt") else e.get("0")
-                    ok = f.ok_reachable(start=[bad]) is None and f.ok_reachable(removed=[bi]) is None
+                    ok = f.ok_reachable(start=[bad]) is None and f.ok_reachable(removed=[bi] + list(empty)) is None
     ctx.ob(rule, "count-checked/%s" % short(f.path), ok, "every successful return of Blob::read passes the comparison copied == self.length, whose unequal branch fails")
     # nothing but the limited copy writes to the output
     outs = calls_where(f, lambda c, t, R: any(strip(R.operand(a)) == ("param", 3) for a in t["args"]))
